@@ -46,6 +46,7 @@ static inline int sp_cmp(struct smt_rational a, struct smt_rational b)
   WIDE_t l = (WIDE_t)a.num * (WIDE_t)b.den, r = (WIDE_t)b.num * (WIDE_t)a.den;
   return l < r ? -1 : (l > r ? 1 : 0);
 }
+static inline _Bool sp_rat_identical(struct smt_rational a, struct smt_rational b) { return a.num == b.num && a.den == b.den; }
 static inline struct smt_rational sp_of_int(I_t i) { struct smt_rational r; r.num = i; r.den = 1; return r; }
 
 /* same value (finite: cross-multiplication; infinite: same sign) */
